@@ -403,8 +403,10 @@ where
         let phi = (s[0]).powf(two * α) * (s[1]).powf(two - α * two);
 
         // obtain last element of g from the Newton-Raphson method
+        // (relative to the radius s1^α s2^(1-α) of the cone at (s1,s2):
+        // the cone, and hence its gradient map, is scale invariant)
         let abs_s = s[2].abs();
-        if abs_s > T::epsilon() {
+        if abs_s > T::epsilon() * phi.sqrt() {
             g[2] = _newton_raphson_powcone(abs_s, phi, α);
             if s[2] < T::zero() {
                 g[2] = -g[2];
